@@ -7,25 +7,23 @@ From Basyx Require Import gen.Gen_HttpRoutes model.Files model.Http proofs.HttpP
 Import ListNotations.
 Local Open Scope Z_scope.
 
-(* Full statement of the first sentence of the property. *)
-Definition C11_no_5xx_full : Prop := forall s r, req_ok r ->
-  status (snd (handle s r)) < 500 \/
-  (status (snd (handle s r)) = 501 /\ unimplemented (r_rule r) (r_meth r) = true).
-
-(* It is refuted by the pinned code (known finding C11:raises:delete-after-id-change): after a
-   history in which a PUT changed a submodel's id, DELETE of that submodel lets KeyError escape. *)
-Theorem C11_no_5xx_refuted :
-  exists rs r, req_ok r /\ status (snd (handle (run (empty false) rs) r)) = 500
-               /\ pay (snd (handle (run (empty false) rs) r)) = PCrash EKey.
-Proof. exact no_5xx_refuted. Qed.
-
-(* Strongest true part.  Excluded: stores in which an object is filed under another key than
-   its id (only produced by an id-changing PUT).
+(* Full statement of the first sentence of the property: on the store reached by ANY request history (in-memory or
+   local-file backed), no request is answered with a 5xx or makes the WSGI callable raise (status 500 / PCrash in the
+   model), other than 501 on the routes declared unimplemented.
    [req_ok]: the request carries the idShort path its route declares (werkzeug's matcher). *)
+Theorem C11_no_5xx : forall rs b r, req_ok r ->
+  status (snd (handle (run (empty b) rs) r)) < 500 \/
+  (status (snd (handle (run (empty b) rs) r)) = 501 /\ unimplemented (r_rule r) (r_meth r) = true).
+Proof. exact no_5xx_full. Qed.
+
+(* The same for every store in which each object is filed under its own id - the invariant of all reachable stores
+   (C10_own_id; a PUT that changes an id files the object anew). *)
 Theorem C11_no_5xx_partial : forall s r, own_ids s -> req_ok r ->
   status (snd (handle s r)) < 500 \/
   (status (snd (handle s r)) = 501 /\ unimplemented (r_rule r) (r_meth r) = true).
 Proof. exact no_5xx_partial. Qed.
+Theorem C11_own_ids_reachable : forall rs b, own_ids (run (empty b) rs).
+Proof. exact own_ids_reachable. Qed.
 
 (* Every 4xx answer except 406 carries the result structure (success=false, one Error message
    whose code is the exception class) - for every state and request. *)
@@ -45,10 +43,13 @@ Theorem C11_ok_status : forall ep s r s' resp, handler ep s r = Ok (s', resp) ->
 Proof. exact handler_ok_status. Qed.
 
 (* Non-vacuity: the hypotheses of C11_no_5xx_partial hold for a store with a nested submodel and a
-   PUT that replaces it (and the id-changing history is exactly what breaks own_ids). *)
+   PUT that replaces it; and after a history in which a PUT changed an id the DELETE of the old id is a plain 404. *)
 Example C11_example_hypotheses :
   own_ids example_state /\ req_ok example_put /\
   status (snd (handle example_state example_put)) = 204.
 Proof. exact example_hypotheses. Qed.
-Example C11_example_excluded : ~ own_ids (run (empty false) rename_history).
-Proof. exact rename_breaks_own_ids. Qed.
+Example C11_example_renamed : forall b,
+  map fst (st_objs (run (empty b) rename_history)) = [2] /\
+  status (snd (handle (run (empty b) rename_history) delete_renamed)) = 404 /\
+  pay (snd (handle (run (empty b) rename_history) (rq "/submodels/<base64url:submodel_id>" MGet (IdOk 2) BNoCtype))) = PVal (sm_doc 2).
+Proof. exact rename_example. Qed.
